@@ -416,6 +416,24 @@ impl<'c, 'a, 'ast> Visit<'ast> for BodyVisitor<'c, 'a> {
                 if let Some(ld) = self.d.loops.get(&n) {
                     self.loops_done.push(n);
                     let (bs, _) = self.cx.f.range(l.body.brace_token.span.open());
+                    if ld.index_mut {
+                        // R14 (opt-in): `for x in &mut a { body }` -> `for vx_i in 0..a.len() { let x = &mut a[vx_i]; body }`.
+                        // Verus has no usable model of core::slice::IterMut; this is the definition of iteration over
+                        // `&mut [T; N]` / `&mut [T]` / `&mut Vec<T>` (each element once, in index order) - a modelling
+                        // assumption on `core`, logged like every other rewrite.
+                        match (&*l.expr, &*l.pat) {
+                            (Expr::Reference(r), syn::Pat::Ident(pi)) if r.mutability.is_some() && pi.by_ref.is_none() && pi.subpat.is_none() => {
+                                let arr = self.cx.f.slice(r.expr.span()).to_string();
+                                let (ps, pe) = self.cx.f.range(l.pat.span());
+                                let (es, ee) = self.cx.f.range(l.expr.span());
+                                let (_, be) = self.cx.f.range(l.body.brace_token.span.open());
+                                self.cx.edit(ps, pe, "vx_i".to_string(), 0, "R14-iter-mut-index");
+                                self.cx.edit(es, ee, format!("0..{}.len()", arr), 0, "R14-iter-mut-index");
+                                self.cx.edit(be, be, format!(" let {} = &mut {}[vx_i];", pi.ident, arr), 60, "R14-iter-mut-index");
+                            }
+                            _ => die("loop option index-mut needs `for <ident> in &mut <place>`"),
+                        }
+                    }
                     if let Some(it) = &ld.iter_name {
                         let (es, _) = self.cx.f.range(l.expr.span());
                         self.cx.edit(es, es, format!("{}: ", it), 0, "R7-loop-iter");
